@@ -94,3 +94,48 @@ Proof.
     do 6 (destruct i as [|i]; [vm_compute; lia|]). lia. }
   repeat split; vm_compute; reflexivity.
 Qed.
+
+(* ---- the rSelf form of 'enabled by' ---------------------------------------------------------------
+   { x::i,
+     d/ -> { self: (enabled by "on"), on::T:F, y::i, e/ -> { z::i } },
+     b/ (enabled by "b/on") -> { self: (enabled by "on"), w::i, on::T:F } }   (both forms, one switch)
+   The non-parameter port "self:" has an entry without default.  While /d/on is off the walk does not
+   look at the table of d/ but is applied to /d/on; /b/on is reported by the walk of the root table
+   (inner switch) - in both states exactly the live ports. *)
+Definition self_tree : list pt :=
+  [ PLeaf [120] None (ld KI [VI 3]);
+    PSub [100] None None None
+      [ PAux [115; 101; 108; 102] (Some [111; 110]); PLeaf [111; 110] None (ld KT [VT false]);
+        PLeaf [121] None (ld KI [VI 3]);
+        PSub [101] None None None [ PLeaf [122] None (ld KI [VI 3]) ] ];
+    PSub [98] None None (Some [98; 47; 111; 110])
+      [ PAux [115; 101; 108; 102] (Some [111; 110]); PLeaf [119] None (ld KI [VI 3]);
+        PLeaf [111; 110] None (ld KT [VT false]) ] ].
+Definition self_state : state := [[VI 3]; [VI 0]; [VT true]; [VI 3]; [VI 3]; [VI 0]; [VI 3]; [VT false]].
+
+Theorem walk_rself_nonvacuous :
+  let a := app_of_tree self_tree in
+  names_ok (sports_of self_tree) = true /\ switches_ok self_tree = true /\
+  NoDup (map dir_addr (dirs_root self_tree)) /\ NoDup (map p_path a) /\ NoDup (app_addresses a) /\
+  (forall i, (i < length a)%nat -> (0 < p_len (port_at a i))%nat) /\
+  map (fun p => (p_path p, p_soft p, p_nodef p)) a =
+    [ ([47; 120], [], false);
+      ([47; 100; 47; 115; 101; 108; 102], [2%nat], true);    ([47; 100; 47; 111; 110], [], false);
+      ([47; 100; 47; 121], [2%nat], false);                  ([47; 100; 47; 101; 47; 122], [2%nat], false);
+      ([47; 98; 47; 115; 101; 108; 102], [7%nat; 7%nat], true);
+      ([47; 98; 47; 119], [7%nat; 7%nat], false);            ([47; 98; 47; 111; 110], [], false) ] /\
+  walk_tree self_tree (initial a) = [0; 2; 7]%nat /\
+  filter (live a (initial a)) (seq 0 (length a)) = [0; 2; 7]%nat /\
+  walk_tree self_tree self_state = [0; 1; 2; 3; 4; 7]%nat /\
+  filter (live a self_state) (seq 0 (length a)) = [0; 1; 2; 3; 4; 7]%nat.
+Proof.
+  intros a. unfold a.
+  split; [vm_compute; reflexivity|]. split; [vm_compute; reflexivity|].
+  split; [vm_compute; repeat constructor; simpl; intuition discriminate|].
+  split; [vm_compute; repeat constructor; simpl; intuition discriminate|].
+  split; [vm_compute; repeat constructor; simpl; intuition discriminate|].
+  split.
+  { intros i Hi. change (length (app_of_tree self_tree)) with 8%nat in Hi.
+    do 8 (destruct i as [|i]; [vm_compute; lia|]). lia. }
+  repeat split; vm_compute; reflexivity.
+Qed.
